@@ -21,13 +21,19 @@ GROUP = {"A": "apply", "T": "transpose", "TT": "transpose", "H": "adjoint",
 def std_modes(forms=None, compose=True, square=False):
     """list of [mode, forms] pairs: the operator, its transpose and adjoint on all argument forms, and
     compositions with scipy operators on the identity and one payload vector"""
-    forms = list(forms or MAIN_FORMS)
-    modes = [["A", forms], ["T", forms], ["H", forms + ["rv", "rm"]]]
-    if compose:
-        modes += [[m, LIGHT_FORMS] for m in ("TT", "scale", "sum", "prod", "lprod")]
-        if square:
-            modes.append(["pow", LIGHT_FORMS])
-    return modes
+    key = (tuple(forms or MAIN_FORMS), bool(compose), bool(square))
+    if key not in _MODES_CACHE:     # shared, never mutated (reduce_case builds new lists)
+        forms = list(forms or MAIN_FORMS)
+        modes = [["A", forms], ["T", forms], ["H", forms + ["rv", "rm"]]]
+        if compose:
+            modes += [[m, LIGHT_FORMS] for m in ("TT", "scale", "sum", "prod", "lprod")]
+            if square:
+                modes.append(["pow", LIGHT_FORMS])
+        _MODES_CACHE[key] = modes
+    return _MODES_CACHE[key]
+
+
+_MODES_CACHE = {}
 
 
 def make_operand(kind, m, n, idx, seed, dtype="f8"):
